@@ -1375,6 +1375,7 @@ func genC02(c *Ctx) {
 	g.ppkCommentBlanks()
 	g.labelMismatch()
 	g.hostPatterns()
+	g.sshCerts()
 	g.opaquePrivate()
 	g.ecOptionalComponents()
 	g.cryptoKeys()
